@@ -406,7 +406,7 @@ func finish(c *Ctx, pd *propDef) int {
 		}
 		if i := strings.Index(name, "/"); i >= 0 {
 			rest := name[i+1:]
-			for _, k := range []string{"post@", "at-eval@", "pre@", "trace@", "arity@", "inv-init@", "inv-keep@", "variant@", "step@", "loop-exit@", "accepts@", "frame:result@", "lemma@", "byte@", "on-call@", "on-store@", "on-map-update@", "on-map-delete@", "no-store@", "operand-kept@", "exact:", "confine@", "on-slice@", "after-loop@", "no-map-delete@"} {
+			for _, k := range []string{"post@", "at-eval@", "pre@", "trace@", "arity@", "inv-init@", "inv-keep@", "variant@", "step@", "loop-exit@", "accepts@", "frame:result@", "lemma@", "byte@", "on-call@", "on-store@", "on-map-update@", "on-map-delete@", "no-store@", "operand-kept@", "exact:", "confine@", "on-slice@", "after-loop@", "no-map-delete@", "full-loop@", "must-defer@"} {
 				if strings.HasPrefix(rest, k) {
 					vanished = append(vanished, name)
 				}
